@@ -2,6 +2,7 @@
 only on the *sets* of declared names. -/
 import FormakVerif.Proofs.Names
 import FormakVerif.Model.PyModel
+import FormakVerif.Model.Ekf
 
 namespace FormakVerif.C15
 open FormakVerif
@@ -27,6 +28,106 @@ theorem layout_order_free {a b : List Name} (h : a.Perm b) : layout a = layout b
 
 /-- generating twice from the same definition gives the same skeleton (the generator is a function) -/
 theorem repeatable (d : ModelDef) (s : List (String × List Name)) : skeleton d s = skeleton d s := rfl
+
+/-! ### the whole emitted artifact, not only the skeleton -/
+
+/-- a dictionary written down in another order is the same dictionary: with distinct keys, `lookup` does not see the order -/
+theorem lookup_perm {β : Type} {l₁ l₂ : List (Name × β)} (h : l₁.Perm l₂) (hnd : (l₁.map (·.1)).Nodup) (k : Name) :
+    l₁.lookup k = l₂.lookup k := by
+  induction h with
+  | nil => rfl
+  | cons x _ ih =>
+    obtain ⟨a, b⟩ := x
+    simp only [List.map_cons, List.nodup_cons] at hnd
+    simp only [List.lookup_cons]
+    cases hk : (k == a) with
+    | true => rfl
+    | false => exact ih hnd.2
+  | swap x y l =>
+    obtain ⟨a, b⟩ := x
+    obtain ⟨c, e⟩ := y
+    simp only [List.map_cons, List.nodup_cons, List.mem_cons, not_or] at hnd
+    simp only [List.lookup_cons]
+    cases hka : (k == a) with
+    | false => rfl
+    | true =>
+      cases hkc : (k == c) with
+      | false => rfl
+      | true =>
+        exfalso
+        have h1 : k = a := by simpa using hka
+        have h2 : k = c := by simpa using hkc
+        exact hnd.1.1 (h2 ▸ h1 ▸ rfl)
+  | trans h₁ _ ih₁ ih₂ =>
+    rw [ih₁ hnd]
+    exact ih₂ ((h₁.map (·.1)).nodup_iff.mp hnd)
+
+/-- **C15, the emitted artifact.** Two filter definitions that declare the same symbols (in any order, from any container), give
+the same expression to each state name, the same noise to each control name, and the same sensors — same keys, and under each key
+the same readings with the same expressions and noises, in any order — emit the same artifact: argument order, update statements,
+flattened Jacobians, noise diagonals, sensor ids and, per sensor, reading slots, statements, Jacobian and noise diagonal, each in
+the same order. (`lookup_perm` shows that dictionaries with distinct keys written in another order meet the `lookup` hypotheses.) -/
+theorem emitted_decl_order (d₁ d₂ : EkfDef) (hdt : d₁.model.dt = d₂.model.dt)
+    (hs : d₁.model.state.Perm d₂.model.state) (hc : d₁.model.control.Perm d₂.model.control)
+    (hk : d₁.model.calibration.Perm d₂.model.calibration)
+    (hu : ∀ n, d₁.model.update.lookup n = d₂.model.update.lookup n)
+    (hp : ∀ u, d₁.processNoise.lookup u = d₂.processNoise.lookup u)
+    (hkeys : (d₁.sensors.map (·.key)).Perm (d₂.sensors.map (·.key)))
+    (hsens : ∀ k, (d₁.sensor k).map d₁.emitSensor = (d₂.sensor k).map d₂.emitSensor) :
+    d₁.emitted = d₂.emitted := by
+  have ha : d₁.model.arglist = d₂.model.arglist := by
+    unfold ModelDef.arglist; rw [hdt, layout_perm hs, layout_perm hc, layout_perm hk]
+  have hLs : d₁.Ls = d₂.Ls := layout_perm hs
+  have hLc : d₁.Lc = d₂.Lc := layout_perm hc
+  have hspec : d₁.model.spec = d₂.model.spec := by
+    unfold ModelDef.spec
+    rw [layout_perm hs]
+    have : (fun n => d₁.model.update.lookup n) = (fun n => d₂.model.update.lookup n) := funext hu
+    rw [this]
+  unfold EkfDef.emitted
+  rw [ha, hspec, hLs, hLc, layout_perm hkeys]
+  congr 1
+  · exact List.map_congr_left fun u _ => by rw [hp u]
+  · exact List.filterMap_congr fun k _ => hsens k
+
+/-- the per-sensor hypothesis of `emitted_decl_order` unfolded: the same readings (any order), the same expression and the same noise
+under each reading name give the same emitted sensor -/
+theorem emitSensor_decl_order (d₁ d₂ : EkfDef) (s₁ s₂ : SensorDef) (hkey : s₁.key = s₂.key)
+    (hLs : d₁.model.state.Perm d₂.model.state) (hLk : d₁.model.calibration.Perm d₂.model.calibration)
+    (hr : (s₁.readings.map (·.1)).Perm (s₂.readings.map (·.1)))
+    (he : ∀ r, s₁.readings.lookup r = s₂.readings.lookup r)
+    (hn : ∀ r, ((d₁.sensorNoise.lookup s₁.key).getD []).lookup r = ((d₂.sensorNoise.lookup s₂.key).getD []).lookup r) :
+    d₁.emitSensor s₁ = d₂.emitSensor s₂ := by
+  have hLr : s₁.Lr = s₂.Lr := layout_perm hr
+  have hspec : s₁.spec = s₂.spec := by
+    unfold SensorDef.spec
+    rw [hLr]
+    have : (fun r => s₁.readings.lookup r) = (fun r => s₂.readings.lookup r) := funext he
+    rw [this]
+  have h1 : d₁.Ls = d₂.Ls := layout_perm hLs
+  have h2 : d₁.Lk = d₂.Lk := layout_perm hLk
+  have hnoise : (s₁.Lr.map fun r => (((d₁.sensorNoise.lookup s₁.key).getD []).lookup r).getD 0) =
+      (s₂.Lr.map fun r => (((d₂.sensorNoise.lookup s₂.key).getD []).lookup r).getD 0) := by
+    rw [hLr]; exact List.map_congr_left fun r _ => by rw [hn r]
+  unfold EkfDef.emitSensor
+  rw [hnoise, hkey, hLr, hspec, h1, h2]
+
+/-! non-vacuity: one filter definition written down in two different orders (symbols, update entries, noise entries, sensors,
+readings); argument order, noise diagonals, sensor ids, reading slots and per-reading noises come out the same -/
+def e1 : EkfDef where
+  model := ⟨"dt", ["z", "a"], ["u", "b"], ["k"], [("z", .add (.var "z") (.mul (.var "dt") (.var "a"))), ("a", .add (.var "u") (.mul (.var "k") (.var "b")))]⟩
+  processNoise := [("u", 1/2), ("b", 3)]
+  sensors := [⟨"gps", [("r2", .var "z"), ("r1", .mul (.var "a") (.var "k"))]⟩, ⟨"alt", [("q", .var "z")]⟩]
+  sensorNoise := [("gps", [("r2", 2), ("r1", 5)]), ("alt", [("q", 7)])]
+  filtering := none
+def e2 : EkfDef where
+  model := ⟨"dt", ["a", "z"], ["b", "u"], ["k"], [("a", .add (.var "u") (.mul (.var "k") (.var "b"))), ("z", .add (.var "z") (.mul (.var "dt") (.var "a")))]⟩
+  processNoise := [("b", 3), ("u", 1/2)]
+  sensors := [⟨"alt", [("q", .var "z")]⟩, ⟨"gps", [("r1", .mul (.var "a") (.var "k")), ("r2", .var "z")]⟩]
+  sensorNoise := [("alt", [("q", 7)]), ("gps", [("r1", 5), ("r2", 2)])]
+  filtering := none
+example : e1.emitted.M = e2.emitted.M ∧ e1.emitted.arglist = e2.emitted.arglist ∧
+  e1.emitted.sensors.map (fun s => (s.key, s.readings, s.noise)) = e2.emitted.sensors.map (fun s => (s.key, s.readings, s.noise)) := by decide +kernel
 
 example :
     skeleton ⟨"dt", ["z", "a"], ["u"], [], []⟩ [("gps", ["r2", "r1"]), ("alt", ["q"])] =
